@@ -11,7 +11,8 @@
    Because the statements hold for every history, they hold after every
    insertion (every prefix is a history). *)
 From Coq Require Import ZArith List Bool Permutation.
-From CSS Require Import Forest.Spec Forest.Model Forest.Correct Forest.Theorems.
+From CSS Require Import Forest.Spec Forest.Model Forest.Correct Forest.Theorems Forest.GenBridge.
+From CSS Require Gen.ForestCanGiveTerms Gen.ForestComputeShift Gen.ForestPreimageGap.
 Import ListNotations.
 Open Scope Z_scope.
 
@@ -84,6 +85,26 @@ Theorem C03_gap_lemma : forall R (f : nat -> option Z) (dom : nat -> Prop) k g,
   forall c n, f c = Some n -> k + g <= n -> pumps R c.
 Proof. exact gap_lemma. Qed.
 
+(* The model's arithmetic IS the source's arithmetic.  can_give_terms,
+   compute_shift and ForestPreimageGap.preimage_gap are re-translated from
+   TableMethod._can_give_terms, TableMethod._compute_shift and
+   Function.preimage_gap on every run (Gen/Forest*.v).  The firing test every
+   theorem above is about equals _can_give_terms applied to the shifts
+   _compute_shift derives from the current table (for a rule with a finite
+   parent: rules of an infinite parent are never examined), and the gap search
+   equals Function.preimage_gap on the histogram of the finite values. *)
+Theorem C03_firing_test_is_source : forall f r p,
+  getf f (parent r) = Some p ->
+  can_fire f r =
+  ForestCanGiveTerms.can_give_terms
+    (ForestComputeShift.compute_shift (getf f (parent r))
+       (map (fun cs => getf f (fst cs)) (kids r)) (map snd (kids r))).
+Proof. exact can_fire_is_source. Qed.
+
+Theorem C03_gap_search_is_source : forall f g,
+  Model.preimage_gap f g = ForestPreimageGap.preimage_gap (hist f) g.
+Proof. exact preimage_gap_is_source. Qed.
+
 (* non-vacuity: a history with a negative shift, a class that pumps only
    after a gap move, a finite non-zero class and an unknown label *)
 Example C03_nonvacuous :
@@ -107,3 +128,5 @@ Print Assumptions C03_monotone.
 Print Assumptions C03_pumping_subuniverse.
 Print Assumptions C03_function_dict.
 Print Assumptions C03_gap_lemma.
+Print Assumptions C03_firing_test_is_source.
+Print Assumptions C03_gap_search_is_source.
